@@ -771,65 +771,28 @@ theorem iClone_spec {s : St} {L : List Nat} (hv : LocalVec s.v L) (hb : s.mem.bu
   rw [r1, St.onMem_fst, (Mem.dropLoop_of_none _ _ r3).1]
   exact ⟨rfl, Post.same hv (by rw [St.onMem_v, r2])⟩
 
-theorem Mem.retId_budget (a : Nat) (m : Mem) : (m.retId a).budget = m.budget := by
-  unfold Mem.retId; split <;> rfl
-
-theorem Mem.readMove_budget (x : Slot) (m : Mem) : (m.readMove x).2.budget = m.budget := by
-  cases x <;> rfl
-
-theorem iterSteps_quiet : ∀ (sc : List IStep) (c : Cur) (s : St),
-    (iterSteps sc c s).2.v = s.v ∧ (iterSteps sc c s).2.mem.budget = s.mem.budget
-  | [], _, _ => ⟨rfl, rfl⟩
-  | .front :: r, c, s => by
-    unfold iterSteps
-    split
-    · obtain ⟨h1, h2⟩ := iterSteps_quiet r { c with lo := c.lo + 1 }
-        (St.withMem (Mem.retId (s.onMem (Mem.readMove (s.v.get c.lo))).1)
-          (s.onMem (Mem.readMove (s.v.get c.lo))).2)
-      refine ⟨h1, ?_⟩
-      rw [h2]
-      simp only [St.withMem_mem, St.onMem_mem, St.onMem_fst]
-      rw [Mem.retId_budget, Mem.readMove_budget]
-    · exact iterSteps_quiet r c s
-  | .back :: r, c, s => by
-    unfold iterSteps
-    split
-    · obtain ⟨h1, h2⟩ := iterSteps_quiet r { c with hi := c.hi - 1 }
-        (St.withMem (Mem.retId (s.onMem (Mem.readMove (s.v.get (c.hi - 1)))).1)
-          (s.onMem (Mem.readMove (s.v.get (c.hi - 1)))).2)
-      refine ⟨h1, ?_⟩
-      rw [h2]
-      simp only [St.withMem_mem, St.onMem_mem, St.onMem_fst]
-      rw [Mem.retId_budget, Mem.readMove_budget]
-    · exact iterSteps_quiet r c s
-
 theorem drainOp_spec {s : St} {L : List Nat} (a b : Nat) (script : List IStep) (fin : IFin)
     (hv : LocalVec s.v L) (hb : s.mem.budget = none) :
     (drainOp a b script fin s).1 = decide (¬ (a ≤ b ∧ b ≤ L.length)) ∧
     Post s (drainOp a b script fin s).2 (if a ≤ b ∧ b ≤ L.length then
-      (match fin with | .leak => L.take a | .drop => L.take a ++ L.drop b) else L) := by
+      (if fin = .leak then L.take a else L.take a ++ L.drop b) else L) := by
   unfold drainOp
   rw [hv.1]
   have hle := hv.len_le
   by_cases h : a ≤ b ∧ b ≤ L.length
   · rw [if_pos h, if_pos h]
     dsimp only
-    obtain ⟨q1, q2⟩ := iterSteps_quiet script { lo := a, hi := b } (s.setLen a)
-    generalize iterSteps script { lo := a, hi := b } (s.setLen a) = r at q1 q2
-    obtain ⟨c, s1⟩ := r
-    simp only at q1 q2 ⊢
-    cases fin with
-    | leak =>
-      refine ⟨by simp [h], ⟨?_, by rw [q1]; rfl, by rw [q1]; rfl⟩⟩
-      rw [q1]; exact hv.setLen_take a (by omega)
-    | drop =>
+    -- `Drain::drop` from any cursor, after any quiet prefix
+    have key : ∀ (c : Cur) (s1 : St), s1.v = (s.setLen a).v → s1.mem.budget = none →
+        (drainDrop c b (L.length - b) s1).1 = false ∧
+          Post s (drainDrop c b (L.length - b) s1).2 (L.take a ++ L.drop b) := by
+      intro c s1 q1 hb1
       simp only [drainDrop]
-      have hb1 : s1.mem.budget = none := by rw [q2]; exact hb
       obtain ⟨d1, d2⟩ := Mem.dropSlice_of_none (s1.v.range c.lo c.hi) s1.mem hb1
       rw [St.onMem_fst, d1]
       simp only [Bool.false_eq_true, if_false, St.onMem_v]
-      have hchunk : (s1.onMem (Mem.dropSlice (s1.v.range c.lo c.hi))).2.v.range b (b + (L.length - b))
-          = (L.drop b).map .init := by
+      have hchunk : (s1.onMem (Mem.dropSlice (s1.v.range c.lo c.hi))).2.v.range b
+          (b + (L.length - b)) = (L.drop b).map .init := by
         have := hv.range_sub (a := b) (b := L.length) h.2 (Nat.le_refl _)
         rw [St.onMem_v, q1]
         rw [show b + (L.length - b) = L.length by omega]
@@ -844,25 +807,75 @@ theorem drainOp_spec {s : St} {L : List Nat} (a b : Nat) (script : List IStep) (
       obtain ⟨c1, c2⟩ := hv.writeChunk (T := L.drop b) a (by omega) (by simp; omega)
       have hl : a + (L.drop b).length = a + (L.length - b) := by simp
       rw [hl] at c1 c2
-      refine ⟨by simp [h], ⟨?_, ?_, ?_⟩⟩
+      refine ⟨trivial, ⟨?_, ?_, ?_⟩⟩
       · simpa [St.setLen, Vec.setLen, Vec.writeChunk, q1] using c1
       · simpa [St.setLen, Vec.setLen, Vec.writeChunk, Vec.cap, q1] using c2
       · simp [St.setLen, Vec.setLen, Vec.writeChunk, q1]
+    obtain ⟨q0, q1, q2⟩ := iterSteps_quiet script { lo := a, hi := b } (s.setLen a) hb
+    generalize iterSteps script { lo := a, hi := b } (s.setLen a) = r at q0 q1 q2
+    obtain ⟨p, c, s1⟩ := r
+    simp only at q0 q1 q2 ⊢
+    subst q0
+    simp only [Bool.false_eq_true, if_false]
+    have hcons : ∀ fin : IFin,
+        ((consume fin c s1).1 || (drainDrop (consume fin c s1).2.1 b (L.length - b)
+          (consume fin c s1).2.2).1) = false ∧
+        Post s (drainDrop (consume fin c s1).2.1 b (L.length - b) (consume fin c s1).2.2).2
+          (L.take a ++ L.drop b) := fun fin => by
+      obtain ⟨k0, k1, k2⟩ := consume_quiet fin c s1 q2
+      obtain ⟨r1, r2⟩ := key _ _ (k1.trans q1) k2
+      exact ⟨by rw [k0, r1]; rfl, r2⟩
+    cases fin with
+    | leak =>
+      refine ⟨by simp [h], ⟨?_, by rw [q1]; rfl, by rw [q1]; rfl⟩⟩
+      rw [q1]; exact hv.setLen_take a (by omega)
+    | drop => obtain ⟨r1, r2⟩ := hcons .drop; exact ⟨by simp [h, r1], by simpa using r2⟩
+    | last => obtain ⟨r1, r2⟩ := hcons .last; exact ⟨by simp [h, r1], by simpa using r2⟩
+    | count => obtain ⟨r1, r2⟩ := hcons .count; exact ⟨by simp [h, r1], by simpa using r2⟩
+    | fold => obtain ⟨r1, r2⟩ := hcons .fold; exact ⟨by simp [h, r1], by simpa using r2⟩
+    | rfold => obtain ⟨r1, r2⟩ := hcons .rfold; exact ⟨by simp [h, r1], by simpa using r2⟩
   · rw [if_neg h, if_neg h]
     exact ⟨by simp [h], Post.same hv rfl⟩
 
 theorem iIntoIter_spec {s : St} (script : List IStep) (fin : IFin) (hb : s.mem.budget = none) :
     (iIntoIter script fin s).1 = false ∧ (iIntoIter script fin s).2.v = iNew s.v.cap := by
   unfold iIntoIter
-  obtain ⟨q1, q2⟩ := iterSteps_quiet script { lo := 0, hi := s.v.len } s
-  generalize iterSteps script { lo := 0, hi := s.v.len } s = r at q1 q2
-  obtain ⟨c, s1⟩ := r
-  simp only at q1 q2 ⊢
+  obtain ⟨q0, q1, q2⟩ := iterSteps_quiet script { lo := 0, hi := s.v.len } s hb
+  dsimp only
+  generalize iterSteps script { lo := 0, hi := s.v.len } s = r at q0 q1 q2 ⊢
+  obtain ⟨p, c, s1⟩ := r
+  simp only at q0 q1 q2 ⊢
+  subst q0
+  simp only [Bool.false_eq_true, if_false]
+  have hcons : ∀ fin : IFin,
+      (if (consume fin c s1).1 = true then
+          (true, (St.onMem (Mem.dropSlice ((consume fin c s1).2.2.v.range
+            (consume fin c s1).2.1.lo (consume fin c s1).2.1.hi)) (consume fin c s1).2.2).2)
+        else
+          St.onMem (Mem.dropLoop ((consume fin c s1).2.2.v.range
+            (consume fin c s1).2.1.lo (consume fin c s1).2.1.hi)) (consume fin c s1).2.2).1
+        = false ∧
+      (if (consume fin c s1).1 = true then
+          (true, (St.onMem (Mem.dropSlice ((consume fin c s1).2.2.v.range
+            (consume fin c s1).2.1.lo (consume fin c s1).2.1.hi)) (consume fin c s1).2.2).2)
+        else
+          St.onMem (Mem.dropLoop ((consume fin c s1).2.2.v.range
+            (consume fin c s1).2.1.lo (consume fin c s1).2.1.hi)) (consume fin c s1).2.2).2.v.cap
+        = s.v.cap := fun fin => by
+    obtain ⟨k0, k1, k2⟩ := consume_quiet fin c s1 q2
+    generalize consume fin c s1 = q at k0 k1 k2 ⊢
+    obtain ⟨p2, c2, s2⟩ := q
+    simp only at k0 k1 k2 ⊢
+    subst k0
+    simp only [Bool.false_eq_true, if_false]
+    exact ⟨(Mem.dropLoop_of_none _ _ k2).1, by rw [St.onMem_v, k1, q1]⟩
   cases fin with
   | leak => exact ⟨rfl, by simp [q1]⟩
-  | drop =>
-    have := (Mem.dropLoop_of_none (s1.v.range c.lo c.hi) s1.mem (by rw [q2]; exact hb)).1
-    exact ⟨by simp [this], by simp [q1]⟩
+  | drop => obtain ⟨r1, r2⟩ := hcons .drop; exact ⟨r1, by rw [r2]⟩
+  | last => obtain ⟨r1, r2⟩ := hcons .last; exact ⟨r1, by rw [r2]⟩
+  | count => obtain ⟨r1, r2⟩ := hcons .count; exact ⟨r1, by rw [r2]⟩
+  | fold => obtain ⟨r1, r2⟩ := hcons .fold; exact ⟨r1, by rw [r2]⟩
+  | rfold => obtain ⟨r1, r2⟩ := hcons .rfold; exact ⟨r1, by rw [r2]⟩
 
 theorem iRoundtrip_spec {s : St} {L : List Nat} (hv : LocalVec s.v L) :
     (iRoundtrip s).1 = false ∧ Post s (iRoundtrip s).2 L := by
